@@ -1,8 +1,6 @@
 package simple
 
 import (
-	"berty.tech/go-ipfs-log/entry"
-	idp "berty.tech/go-ipfs-log/identityprovider"
 	"berty.tech/go-orbit-db/internal/vstub"
 )
 
@@ -13,8 +11,17 @@ var verifHarnesses = map[string]func(){"VerifC03CanAppend": VerifC03CanAppend}
 func c03List() (list []string, wildcard bool) {
 	n := vstub.NdChoice("listLen", 3)
 	for k := 0; k < n; k++ {
-		id := vstub.NdString("listed", 1)
-		vstub.Assume(id != "*")
+		// a listed id is any 1-byte string (nobody's identity) or the id of identity "a" / "b"
+		var id string
+		switch vstub.NdChoice("listedKind", 3) {
+		case 0:
+			id = vstub.NdString("listed", 1)
+			vstub.Assume(id != "*")
+		case 1:
+			id = vstub.IDOf("a")
+		case 2:
+			id = vstub.IDOf("b")
+		}
 		list = append(list, id)
 	}
 	if vstub.NdChoice("wildcard", 2) == 1 {
@@ -34,18 +41,18 @@ func c03Member(list []string, id string) bool {
 	return false
 }
 
-// VerifC03CanAppend: the controller admits an entry iff its identity id is in
-// the write list or the list contains the wildcard, for EVERY list and id.
+// VerifC03CanAppend: the controller admits an entry iff the id its identity
+// block claims is in the write list (or the list holds the wildcard) AND the
+// claim is genuine (the block's signature chain holds and the entry is signed
+// with the block's key), for EVERY list and every genuine / forged author.
 func VerifC03CanAppend() {
 	list, wildcard := c03List()
-	id := vstub.NdString("author", 1)
-	vstub.Assume(id != "*")
+	e, id, genuine := vstub.AuthorEntry(vstub.NdChoice("author", vstub.AuthorKinds))
 	ac := &simpleAccessController{allowedKeys: map[string][]string{"write": list}}
-	e := &entry.Entry{Identity: &idp.Identity{ID: id, PublicKey: []byte("pk")}}
 	err := ac.CanAppend(e, vstub.NewProvider(), nil)
-	want := wildcard || c03Member(list, id)
+	want := (wildcard || c03Member(list, id)) && genuine
 	vstub.Cover("decided")
-	vstub.Assert((err == nil) == want, "C03 simple controller admits exactly the listed ids (or everybody under the wildcard)")
+	vstub.Assert((err == nil) == want, "C03 simple controller admits exactly the genuine authors whose id is listed (or everybody genuine under the wildcard)")
 	got, _ := ac.GetAuthorizedByRole("write")
 	vstub.Assert(len(got) == len(list), "C14 the controller reports the write list it was given")
 }
